@@ -69,6 +69,8 @@ class Outcome:
         self.sql_texts = {}
         self.stats = {}
         self.ref_env = {}  # backend -> REF handle environment (for known-finding features)
+        self.real_env = {}  # backend -> real handle environment
+        self.ref_ok = {}
 
     def add(self, *a, **kw):
         self.findings.append(Finding(*a, **kw))
@@ -168,6 +170,8 @@ def run_program(prog, backends=("pol", "sqlite"), opts=None, be_cache=None) -> O
     share = opts.get("share", True)
     n_exports = 0
     for be in backends:
+        if be in prog.get("meta", {}).get("skip_backends", ()):
+            continue
         mode = mode_of(be)
         backend = (be_cache or {}).get(be) or drive.Backend(be)
         if be_cache is not None:
@@ -264,6 +268,8 @@ def run_program(prog, backends=("pol", "sqlite"), opts=None, be_cache=None) -> O
                 ref_ok.add(st["out"])
         out.steps_ok[be] = ok_steps
         out.ref_env[be] = rf.env
+        out.real_env[be] = rr.env
+        out.ref_ok[be] = ref_ok
         # ---- probes: export and compare
         for h in probes:
             if h not in handles_ok:
